@@ -91,9 +91,10 @@ func enumPaths(v reflect.Value, tag string, prefix []string, depth int, out *[]P
 				if tv == "-" {
 					continue
 				}
-				if tv != "" {
-					name = tv
+				if tv == "" {
+					continue // e.g. `,omitempty`: unreachable by its Go name and has no tag name
 				}
+				name = tv
 			}
 			add(name, cur.Field(i))
 		}
@@ -232,17 +233,26 @@ func (g *Gen) genMatch(paths []PathInfo, illTyped bool) GExpr {
 	var pi PathInfo
 	if len(paths) > 0 {
 		pi = paths[g.r.Intn(len(paths))]
+		// prefer paths whose value an operator can work on (not structs / nil / odd kinds)
+		for try := 0; try < 4; try++ {
+			sv := unwrapIP(pi.Val)
+			if sv.IsValid() && sv.Kind() != reflect.Struct && sv.Kind() != reflect.Chan && sv.Kind() != reflect.Func &&
+				sv.Kind() != reflect.Complex128 && sv.Kind() != reflect.Complex64 && sv.Kind() != reflect.UnsafePointer {
+				break
+			}
+			pi = paths[g.r.Intn(len(paths))]
+		}
 	} else {
 		pi = PathInfo{Parts: []string{absentParts[g.r.Intn(len(absentParts))]}}
 	}
 	parts := pi.Parts
 	val := pi.Val
-	if g.r.Intn(8) == 0 {
+	if g.r.Intn(12) == 0 {
 		parts = g.mutatePath(parts)
 		val = reflect.Value{}
 	}
 	op := matchOps[g.r.Intn(len(matchOps))]
-	if g.r.Intn(4) != 0 {
+	if g.r.Intn(8) != 0 {
 		// mostly an operator that fits the selected value's kind
 		var fit []string
 		sv := unwrapIP(val)
@@ -276,10 +286,13 @@ func (g *Gen) genMatch(paths []PathInfo, illTyped bool) GExpr {
 		if illTyped {
 			lits = []string{"abc", "", "1.5", "true", "-1", "99999999999999999999", "x y", "0x", "1e", "é"}
 		}
-		// bias towards the first two (equal / nearby) spellings
-		if g.r.Intn(2) == 0 && len(lits) >= 2 {
+		// bias towards the first two (equal / nearby) spellings, then the first half
+		switch r := g.r.Intn(100); {
+		case r < 55 && len(lits) >= 2:
 			m.Raw = lits[g.r.Intn(2)]
-		} else {
+		case r < 80 && len(lits) >= 4:
+			m.Raw = lits[g.r.Intn(len(lits)/2)]
+		default:
 			m.Raw = lits[g.r.Intn(len(lits))]
 		}
 	}
